@@ -18,7 +18,7 @@ def load_unit(path):
     return mod.UNIT
 
 def cfg_tag(cfg):
-    return '_'.join('%s%d' % (k[:6], int(bool(v))) for k, v in sorted(cfg.items())) or 'default'
+    return '_'.join('%s%d' % (k[:6], int(bool(v))) for k, v in sorted(cfg.items()) if k != 'verif_hooks') or 'default'
 
 def scan_cheats(path):
     out = []
